@@ -386,8 +386,11 @@ def trace_records(sched, alog, evs):
         r = {"ev": a, "i": 0, "now": 0, "e": _e("none", "none", 0, 0, 0, 0), "err": 1 if ev.get("err") else 0}
         st = ev.get("step") or {}
         if a in ("Apply", "ApplyPanics"):
-            r["i"] = st["i"]
-            r["e"] = alog[st["i"] - 1]
+            i = st["i"] or post["applied"]        # i = 0: "the next entry" (lenient schedules)
+            if i > len(alog):
+                break
+            r["i"] = i
+            r["e"] = alog[i - 1]
         if a in ("SnapshotTake", "Tick"):
             r["now"] = (st["now"] - T0) // UNIT
             if a == "SnapshotTake" and r["now"] != cur_now:
